@@ -1,3 +1,5 @@
+mod refcodec;
+mod rnd;
 mod runner;
 mod script;
 mod types;
@@ -34,6 +36,42 @@ fn main() {
                 }
             }
             eprintln!("ran {n} scenarios, {bad} with mismatch/panic/watchdog");
+        }
+        // mqv random <seed> <count> <profile.json|-> <trace-out.ndjson> [cfg.json]
+        "random" => {
+            let seed: u64 = args[2].parse().expect("seed");
+            let count: usize = args[3].parse().expect("count");
+            let profile: rnd::Profile = if args[4] == "-" {
+                rnd::Profile::default()
+            } else {
+                serde_json::from_str(&std::fs::read_to_string(&args[4]).expect("profile")).expect("profile json")
+            };
+            let mut out = std::io::BufWriter::new(std::fs::File::create(&args[5]).expect("create out"));
+            let cfgs: Vec<types::Cfg> = match args.get(6) {
+                Some(path) => std::fs::read_to_string(path)
+                    .expect("cfgs")
+                    .lines()
+                    .filter(|l| !l.trim().is_empty())
+                    .map(|l| serde_json::from_str(l).expect("cfg json"))
+                    .collect(),
+                None => vec![serde_json::from_str(r#"{"rx":128,"tx":1152,"client_id":[116,101,115,116],"ka":60,"sei":300}"#).unwrap()],
+            };
+            let (mut bad, mut events) = (0usize, 0usize);
+            for i in 0..count {
+                let mut cfg = cfgs[i % cfgs.len()].clone();
+                let s = seed.wrapping_mul(1_000_003).wrapping_add(i as u64);
+                cfg.name = format!("rnd-{seed}-{i}");
+                let dir = Box::new(rnd::RandomDirector::new(s, profile.clone(), cfg.rx));
+                let res = runner::run_scenario(&cfg, dir);
+                events += res.lines.len();
+                for l in &res.lines {
+                    writeln!(out, "{l}").unwrap();
+                }
+                if res.mismatch.is_some() || res.panicked.is_some() || res.watchdog {
+                    bad += 1;
+                }
+            }
+            eprintln!("ran {count} random scenarios, {events} events, {bad} with mismatch/panic/watchdog");
         }
         _ => {
             eprintln!("usage: mqv run <scenarios.ndjson> <trace.ndjson>");
